@@ -1,4 +1,6 @@
 import PasetoModel.PaserkInst
+import PasetoModel.TextLemmas
+import PasetoModel.Forms
 /-! # C05 — wrap / password-wrap / seal-key then undo returns the same key; fixed lengths -/
 namespace PM.C05
 
@@ -66,6 +68,49 @@ theorem x25519_enc_len (c : BackendCfg) (hdr pk rnd e ctx : Bytes)
   simp only [pkeSodium] at h
   injection h with h; injection h with h1 _
   rw [← h1]; simp [x25519, W.fixLen_length]
+
+/-! ### through the text form: wrap → `to_string` → `parse` → unwrap -/
+
+/-- PIE through its PASERK text: serialising the wrapped key, parsing the string back and unwrapping
+    returns the key, for every back end, kind, wrapping key, nonce and key bytes -/
+theorem pie_text_roundtrip (b : Backend) (k : SKind) (ver hdr wk nonce key : Bytes) (hn : nonce.length = 32) :
+    ((Form.pie k).parse b ((Form.pie k).show b (pieWrap (pieOf b) ver hdr wk nonce key))).bind
+      (pieUnwrap (pieOf b) (pieTagLen b.version) ver hdr wk) = .ok key := by
+  simp only [Form.parse, Form.show, parseSimple_showSimple, Res.bind]
+  exact pie_roundtrip b ver hdr wk nonce key hn
+
+/-- PBKW through its PASERK text -/
+theorem pbkw_text_roundtrip (b : Backend) (k : SKind) (ver hdr pass salt params nonce key blob : Bytes)
+    (hs : salt.length = (pbkwOf b).saltLen) (hp : params.length = (pbkwOf b).paramLen)
+    (hn : nonce.length = (pbkwOf b).nonceLen)
+    (h : pbkwWrap (pbkwOf b) ver hdr pass salt params nonce key = .ok blob) :
+    ((Form.pw k).parse b ((Form.pw k).show b blob)).bind (pbkwUnwrap (pbkwOf b) ver hdr pass) = .ok key := by
+  simp only [Form.parse, Form.show, parseSimple_showSimple, Res.bind]
+  exact pbkw_roundtrip b ver hdr pass salt params nonce key blob hs hp hn h
+
+/-- PKE through its PASERK text -/
+theorem pke_text_roundtrip (b : Backend) (S : PkeScheme) (pubOf : Bytes → Bytes) (L : PkeLaws S pubOf)
+    (sk key rnd blob : Bytes) (hk : key.length = 32) (h : pkeSeal S (pubOf sk) key rnd = .ok blob) :
+    (Form.sealK.parse b (Form.sealK.show b blob)).bind (pkeUnseal S sk) = .ok key := by
+  simp only [Form.parse, Form.show, parseSimple_showSimple, Res.bind]
+  exact (pke_roundtrip S pubOf L sk key rnd blob hk h).1
+
+/-- **The serialised form has the fixed length the format prescribes**: header + unpadded base64 of
+    the fixed-length blob (⌈4n/3⌉ characters).  E.g. `k4.local-wrap.pie.` + 128 characters. -/
+theorem pie_text_len (b : Backend) (k : SKind) (ver hdr wk nonce key : Bytes) (hn : nonce.length = 32) :
+    ((Form.pie k).show b (pieWrap (pieOf b) ver hdr wk nonce key)).length =
+      ((Form.pie k).header b).length + (4 * (pieTagLen b.version + 32 + key.length) + 2) / 3 := by
+  simp only [Form.show, showSimple, Form.header, Form.h1, Form.h2, List.length_append, B64.encode_length,
+    pie_len b ver hdr wk nonce key hn]
+
+theorem pbkw_text_len (b : Backend) (k : SKind) (ver hdr pass salt params nonce key blob : Bytes)
+    (hs : salt.length = (pbkwOf b).saltLen) (hp : params.length = (pbkwOf b).paramLen)
+    (hn : nonce.length = (pbkwOf b).nonceLen)
+    (h : pbkwWrap (pbkwOf b) ver hdr pass salt params nonce key = .ok blob) :
+    ((Form.pw k).show b blob).length =
+      ((Form.pw k).header b).length + (4 * ((pbkwOf b).prefixLen + key.length + (pbkwOf b).tagLen) + 2) / 3 := by
+  simp only [Form.show, showSimple, Form.header, Form.h1, Form.h2, List.length_append, B64.encode_length,
+    pbkw_len b ver hdr pass salt params nonce key blob hs hp hn h]
 
 /-! non-vacuity -/
 example : (pbkwOf .v4).prefixLen = 56 ∧ (pbkwOf .v3).prefixLen = 52 := by decide
